@@ -971,7 +971,8 @@ def run(ctx):
             len(corr), ctx.cov["traces_validated_against_impl"], {k: corr[0][k] for k in ("expr", "impl", "model")}))
         ctx.notes["correspondence_mismatches"] = [{k: c[k] for k in ("expr", "impl", "model")} for c in corr[:20]]
     if new:
-        new.sort(key=lambda o: len(o["case"]))
+        # shortest first, those whose prescribed value can be written down (no namespace nodes in it) before the others
+        new.sort(key=lambda o: (o.get("expect", "?").startswith("ns:?"), len(o["case"])))
         txt = "\n".join("#expect G:%s   # %s\n%s" % (o.get("expect", "?"), oneline(o["what"]), o["case"]) for o in new[:40])
         ctx.violation("oracle", "# C02 oracle failures: the library's value differs from the XPath 1.0 Recommendation\n"
                       "# replay: python3 check.py C02 --replay <this file>  (each case line is preceded by '#expect <value the Recommendation prescribes>')\n" + txt)
